@@ -276,9 +276,11 @@ MDirUnwritable(c) == c.fault \in {"mdir_missing", "mdir_is_file"}
 (***************************************************************************)
 Phases == {"ParseArgs", "ReadInput", "Load", "BindExt", "BindTla", "Eval", "Call", "Manifest", "Write"}
 
-InitRun(c) ==
-  /\ cfg = c
-  /\ phase = "ParseArgs"
+\* Before anything runs the environment fixes the configuration (action Configure);
+\* c0 is a placeholder.
+InitRun(c0) ==
+  /\ cfg = c0
+  /\ phase = "Configure"
   /\ exit = -1
   /\ stdout = <<>>
   /\ stderrNonEmpty = FALSE
@@ -288,6 +290,12 @@ InitRun(c) ==
   /\ out = <<>>
   /\ fidx = 0
   /\ why = ""
+
+Configure(c) ==
+  /\ phase = "Configure"
+  /\ cfg' = c
+  /\ phase' = "ParseArgs"
+  /\ UNCHANGED <<exit, stdout, stderrNonEmpty, files, done, val, out, fidx, why>>
 
 \* a phase succeeds
 Go(p, next) ==
@@ -305,92 +313,107 @@ Die(p, status, cause) ==
   /\ why' = cause
   /\ UNCHANGED <<cfg, stdout, files, done, val, out, fidx>>
 
-ParseArgsOk   == ~UsageError(cfg) /\ Go("ParseArgs", "ReadInput") /\ UNCHANGED <<files, val, out, fidx, why>>
-ParseArgsFail == UsageError(cfg) /\ Die("ParseArgs", 2, "usage")
+ParseArgsOk == phase = "ParseArgs" /\ ~UsageError(cfg) /\ Go("ParseArgs", "ReadInput") /\ UNCHANGED <<files, val, out, fidx, why>>
+ParseArgsFail == phase = "ParseArgs" /\ UsageError(cfg) /\ Die("ParseArgs", 2, "usage")
 
-ReadInputOk   == ~InputUnreadable(cfg) /\ Go("ReadInput", "Load") /\ UNCHANGED <<files, val, out, fidx, why>>
-ReadInputFail == InputUnreadable(cfg) /\ Die("ReadInput", 1, "input unreadable")
+ReadInputOk == phase = "ReadInput" /\ ~InputUnreadable(cfg) /\ Go("ReadInput", "Load") /\ UNCHANGED <<files, val, out, fidx, why>>
+ReadInputFail == phase = "ReadInput" /\ InputUnreadable(cfg) /\ Die("ReadInput", 1, "input unreadable")
 
-LoadOk   == ~LoadError(cfg) /\ Go("Load", "BindExt") /\ UNCHANGED <<files, val, out, fidx, why>>
-LoadFail == LoadError(cfg) /\ Die("Load", 1, "input does not load")
+LoadOk == phase = "Load" /\ ~LoadError(cfg) /\ Go("Load", "BindExt") /\ UNCHANGED <<files, val, out, fidx, why>>
+LoadFail == phase = "Load" /\ LoadError(cfg) /\ Die("Load", 1, "input does not load")
 
 BindExtOk ==
+  /\ phase = "BindExt"
   /\ ~BindCertainlyFails(ExtArgs(cfg)) /\ ~HasDup(ExtArgs(cfg))
   /\ Go("BindExt", "BindTla") /\ UNCHANGED <<files, val, out, fidx, why>>
 BindExtFail ==
+  /\ phase = "BindExt"
   /\ BindCertainlyFails(ExtArgs(cfg)) \/ HasDup(ExtArgs(cfg))
   /\ Die("BindExt", 1, "external variable cannot be bound")
 BindExtFailEager ==                                                        \* (o1)
+  /\ phase = "BindExt"
   /\ ~BindCertainlyFails(ExtArgs(cfg)) /\ ~HasDup(ExtArgs(cfg))
   /\ BindMayFailEagerly(ExtArgs(cfg))
   /\ Die("BindExt", 1, "external code does not parse (eager)")
 
 BindTlaOk ==
+  /\ phase = "BindTla"
   /\ ~BindCertainlyFails(TlaArgs(cfg))
   /\ Go("BindTla", "Eval") /\ UNCHANGED <<files, val, out, fidx, why>>
 BindTlaFail ==
+  /\ phase = "BindTla"
   /\ BindCertainlyFails(TlaArgs(cfg))
   /\ Die("BindTla", 1, "top-level argument cannot be bound")
 BindTlaFailEager ==                                                        \* (o1)
+  /\ phase = "BindTla"
   /\ ~BindCertainlyFails(TlaArgs(cfg))
   /\ BindMayFailEagerly(TlaArgs(cfg))
   /\ Die("BindTla", 1, "top-level code does not parse (eager)")
 
 EvalOk ==
+  /\ phase = "Eval"
   /\ RootValue(cfg).t # "err"
   /\ Go("Eval", "Call")
   /\ val' = RootValue(cfg)
   /\ UNCHANGED <<files, out, fidx, why>>
-EvalFail == RootValue(cfg).t = "err" /\ Die("Eval", 1, "evaluation fails")
+EvalFail == phase = "Eval" /\ RootValue(cfg).t = "err" /\ Die("Eval", 1, "evaluation fails")
 
 CallSkip ==                          \* not a function and nothing to pass
+  /\ phase = "Call"
   /\ val.t # "func" /\ TlaArgs(cfg) = <<>>
   /\ Go("Call", "Manifest") /\ UNCHANGED <<files, val, out, fidx, why>>
 CallNotFunction ==
+  /\ phase = "Call"
   /\ val.t # "func" /\ TlaArgs(cfg) # <<>>
   /\ Die("Call", 1, "top-level arguments but not a function")
 CallOk ==
+  /\ phase = "Call"
   /\ val.t = "func" /\ ~CallError(cfg.prog, TlaArgs(cfg))
   /\ CallValue(cfg.prog, TlaArgs(cfg)).t # "err"
   /\ Go("Call", "Manifest")
   /\ val' = CallValue(cfg.prog, TlaArgs(cfg))
   /\ UNCHANGED <<files, out, fidx, why>>
 CallBindFail ==
+  /\ phase = "Call"
   /\ val.t = "func" /\ CallError(cfg.prog, TlaArgs(cfg))
   /\ Die("Call", 1, "top-level arguments do not match the parameters")
 CallFail ==
+  /\ phase = "Call"
   /\ val.t = "func" /\ ~CallError(cfg.prog, TlaArgs(cfg))
   /\ CallValue(cfg.prog, TlaArgs(cfg)).t = "err"
   /\ Die("Call", 1, "the call fails")
 
 \* ---- Manifest, document modes: the whole text is built, nothing is written
 ManifestOk ==
+  /\ phase = "Manifest"
   /\ ~MultiMode(cfg.mode) /\ DocOk(DocMode(cfg.mode), val)
   /\ Go("Manifest", "Write")
   /\ out' = Rendered(DocMode(cfg.mode), cfg.ntn, val)
   /\ UNCHANGED <<files, val, fidx, why>>
 ManifestFail ==
+  /\ phase = "Manifest"
   /\ ~MultiMode(cfg.mode) /\ ~DocOk(DocMode(cfg.mode), val)
   /\ Die("Manifest", 1, "manifestation fails")
 
 \* ---- Manifest, -m: one visible field at a time, in key order
 MNotObject ==
+  /\ phase = "Manifest"
   /\ MultiMode(cfg.mode) /\ val.t # "obj"
   /\ Die("Manifest", 1, "-m needs an object")
 MField ==
+  /\ phase = "Manifest"
   /\ MultiMode(cfg.mode) /\ val.t = "obj" /\ fidx < Len(Visible(val))
   /\ DocOk(DocMode(cfg.mode), Visible(val)[fidx + 1].v)
   /\ ~MDirUnwritable(cfg)
-  /\ phase = "Manifest"
   /\ fidx' = fidx + 1
-  /\ files' = MFiles(cfg.mode, cfg.ntn, val, fidx + 1)
-  /\ out' = MListing(val, fidx + 1)
+  /\ files' = Append(files, MFiles(cfg.mode, cfg.ntn, val, fidx + 1)[fidx + 1])
+  /\ out' = out \o FieldPath(Visible(val)[fidx + 1].k) \o NL
   /\ UNCHANGED <<cfg, phase, exit, stdout, stderrNonEmpty, done, val, why>>
 MFieldBad(keep) ==                          \* (o2): keep = the earlier files stay
+  /\ phase = "Manifest"
   /\ MultiMode(cfg.mode) /\ val.t = "obj" /\ fidx < Len(Visible(val))
   /\ \/ ~DocOk(DocMode(cfg.mode), Visible(val)[fidx + 1].v)
      \/ MDirUnwritable(cfg)
-  /\ phase = "Manifest"
   /\ phase' = "Done"
   /\ exit' = 1
   /\ stderrNonEmpty' = TRUE
@@ -399,8 +422,9 @@ MFieldBad(keep) ==                          \* (o2): keep = the earlier files st
   /\ files' = IF keep THEN files ELSE <<>>
   /\ UNCHANGED <<cfg, stdout, done, val, out, fidx>>
 MFieldFailKeep == MFieldBad(TRUE)
-MFieldFailDrop == files # <<>> /\ MFieldBad(FALSE)
+MFieldFailDrop == phase = "Manifest" /\ files # <<>> /\ MFieldBad(FALSE)
 MDone ==
+  /\ phase = "Manifest"
   /\ MultiMode(cfg.mode) /\ val.t = "obj" /\ fidx = Len(Visible(val))
   /\ Go("Manifest", "Write")
   /\ UNCHANGED <<files, val, out, fidx, why>>
@@ -413,17 +437,19 @@ Finish ==
   /\ exit' = 0
   /\ UNCHANGED <<cfg, stderrNonEmpty, val, out, fidx, why>>
 WriteFileOk ==
+  /\ phase = "Write"
   /\ cfg.out /\ ~OutFileUnwritable(cfg)
   /\ Finish
   /\ files' = Append(files, File(OFile, out))
   /\ UNCHANGED stdout
-WriteFileFail == cfg.out /\ OutFileUnwritable(cfg) /\ Die("Write", 1, "output file cannot be written")
+WriteFileFail == phase = "Write" /\ cfg.out /\ OutFileUnwritable(cfg) /\ Die("Write", 1, "output file cannot be written")
 WriteStdoutOk ==
+  /\ phase = "Write"
   /\ ~cfg.out /\ (out = <<>> \/ ~StdoutBroken(cfg))
   /\ Finish
   /\ stdout' = out
   /\ UNCHANGED files
-WriteStdoutFail == ~cfg.out /\ out # <<>> /\ StdoutBroken(cfg) /\ Die("Write", 1, "stdout cannot be written")
+WriteStdoutFail == phase = "Write" /\ ~cfg.out /\ out # <<>> /\ StdoutBroken(cfg) /\ Die("Write", 1, "stdout cannot be written")
 
 Next ==
   \/ ParseArgsOk \/ ParseArgsFail
@@ -449,7 +475,7 @@ Delivered == IF cfg.out THEN FileData(OFile) ELSE stdout
 FieldFiles == SelectSeq(files, LAMBDA f : f.path # OFile)
 
 TypeOK ==
-  /\ phase \in Phases \cup {"Done"}
+  /\ phase \in Phases \cup {"Configure", "Done"}
   /\ exit \in {-1, 0, 1, 2}
   /\ IsText(stdout) /\ IsText(out)
   /\ stderrNonEmpty \in BOOLEAN
@@ -601,8 +627,8 @@ LawLazy(c) ==
                /\ (~MustFail(c) => FinalValue(c) = FinalValue(Without(c)))
 \* ... while the same code fails the run when it is demanded
 LawDemanded(c) ==
-  /\ (c.ext = "ext_code_fail_used" /\ c.prog \in {"str", "arr2", "objS", "objMixed", "nested"} =>
-        ~Manifestable(FinalValue(c)) \/ FinalValue(c).t = "err")
+  (c.ext = "ext_code_fail_used" /\ c.prog \in {"str", "arr2", "objS", "objMixed", "nested"}) =>
+     ~Manifestable(FinalValue(c))
 
 \* top-level arguments bind by name, parameters not named keep their defaults
 LawTlaByName(c) ==
